@@ -443,9 +443,11 @@ def LS.scanShortString (l : LS) (conv : List (Bytes × Nat)) : LS × Bytes :=
         ({ (l.err l.heardLocAtEnd "unfinished string") with tokStart := l.cur }, [])
       else
         let str := str ++ (ch.drop st).take (s.i - 1 - st)
-        match convCount conv str with
+        -- the column advances by the converted SOURCE text between the quotes (not by the string value)
+        let raw := (ch.drop 1).take (s.i - 2)
+        match convCount conv raw with
         | some n => ({ l with chunk := ch.drop s.i, cur := l.cur + n + 2, off := l.off + s.i }, str)
-        | none => ({ l with chunk := ch.drop s.i, cur := l.cur + runeCount str + 2, convMissing := true, off := l.off + s.i }, str)
+        | none => ({ l with chunk := ch.drop s.i, cur := l.cur + runeCount raw + 2, convMissing := true, off := l.off + s.i }, str)
 
 /-- `scanIllegalToken`: (line break seen, token text) -/
 def LS.scanIllegal (l : LS) (conv : List (Bytes × Nat)) : LS × Bool × Bytes :=
